@@ -144,7 +144,7 @@ def abstract(obj):  # pylint: disable=too-many-return-statements,too-many-branch
         value = obj.value
         if isinstance(value, CryptoDataParamsBase):
             return 'E' + hs(obj.name) + hs(_safe_str(value)) + ('1' + abstract(value) if isinstance(value, Serializable) else '0')
-        return 'P' + hs(obj.name) + abstract(value)
+        return 'P' + hs(obj.name) + ('1' if isinstance(obj, (int, str, float)) else '0') + abstract(value)
     plain = not hasattr(obj, '_asdict') and not hasattr(obj, '__dict__') and not attr.has(type(obj))
     if obj is None:
         return 'N'
@@ -186,6 +186,8 @@ def abstract(obj):  # pylint: disable=too-many-return-statements,too-many-branch
 # ----------------------------------------------------------------------------------------------------------------
 
 def impl_json(obj):
+    """`obj.as_json()` is `json.dumps(obj)` with the `default` hook cryptoparser.common.base installs on import"""
+    _imports()
     return json.dumps(obj)
 
 
@@ -339,17 +341,28 @@ def set_order_cases(rng, tier):
     return cases
 
 
-def _dnskey_with_flags(flags):
-    from cryptoparser.dnsrec.record import DnsRecordDnskey
-    base = [obj for obj in (cls.parse_exact_size(data) for cls, data in corpus.harvest() if cls is DnsRecordDnskey)]
-    if not base:
-        return None
+def _library_holder(enum_cls, members):
+    """the flag set inside the library class that carries it (None: no such class, use a test holder)"""
     import attr
-    return attr.evolve(base[0], flags=flags)
+    from cryptoparser.dnsrec.record import DnsRecordDnskey, DnsSecFlag
+    from cryptoparser.tls.mysql import (
+        MySQLCapability, MySQLCharacterSet, MySQLHandshakeSslRequest, MySQLHandshakeV10, MySQLStatusFlag, MySQLVersion)
+    from cryptoparser.tls.rdp import RDPNegotiationRequest, RDPProtocol
+    if enum_cls is DnsSecFlag:
+        base = [cls.parse_exact_size(data) for cls, data in corpus.harvest() if cls is DnsRecordDnskey]
+        return attr.evolve(base[0], flags=members) if base else None
+    if enum_cls in (MySQLCapability, MySQLStatusFlag):
+        return MySQLHandshakeV10(
+            protocol_version=MySQLVersion.MYSQL_10, server_version='8.0.1', connection_id=1, auth_plugin_data=8 * b'\x01',
+            capabilities=members if enum_cls is MySQLCapability else {MySQLCapability.CLIENT_SSL},
+            character_set=MySQLCharacterSet.UTF8,
+            states=members if enum_cls is MySQLStatusFlag else set())
+    if enum_cls is RDPProtocol:
+        return RDPNegotiationRequest(flags=set(), protocol=members)
+    return None
 
 
 def build_set_pair(case):
-    from cryptoparser.dnsrec.record import DnsSecFlag
     enum_cls = corpus.resolve(case['enum'])
     _, _, _, _, _, Holder = _test_classes()
     first = set()
@@ -358,11 +371,36 @@ def build_set_pair(case):
     second = set()
     for name in case['b']:
         second.add(enum_cls[name])
-    if enum_cls is DnsSecFlag:
-        a, b = _dnskey_with_flags(first), _dnskey_with_flags(second)
-        if a is not None:
-            return a, b
-    return Holder(first), Holder(second)
+    a, b = _library_holder(enum_cls, first), _library_holder(enum_cls, second)
+    if a is None or b is None:
+        return Holder(first), Holder(second)
+    return a, b
+
+
+def library_objects():
+    """objects of library classes that parsing does not produce: defaults, None-valued optionals, empty containers"""
+    from cryptoparser.tls.mysql import MySQLCapability, MySQLCharacterSet, MySQLHandshakeSslRequest, MySQLHandshakeV10, MySQLVersion
+    from cryptoparser.tls.rdp import RDPNegotiationRequest
+    from cryptoparser.tls.extension import TlsExtensionUnparsed, TlsExtensionsClient
+    from cryptoparser.tls.grease import TlsInvalidTypeOneByte, TlsInvalidTypeTwoByte
+    from cryptoparser.ssh.subprotocol import SshProtocolMessage
+    from cryptoparser.ssh.version import SshProtocolVersion, SshSoftwareVersionUnparsed
+    from cryptoparser.tls.version import TlsProtocolVersion
+    from cryptodatahub.tls.version import TlsVersion
+    from cryptoparser.ssh.version import SshVersion
+    objs = collections.OrderedDict()
+    objs['mysql-defaults'] = MySQLHandshakeV10(
+        protocol_version=MySQLVersion.MYSQL_10, server_version='', connection_id=0, auth_plugin_data=8 * b'\x00',
+        capabilities=set())
+    objs['mysql-ssl-request-empty'] = MySQLHandshakeSslRequest(capabilities=set(), max_packet_size=0)
+    objs['rdp-empty'] = RDPNegotiationRequest(flags=set(), protocol=set())
+    objs['tls-extension-unparsed-empty'] = TlsExtensionUnparsed(TlsInvalidTypeTwoByte(0x0a0a), b'')
+    objs['tls-extensions-empty'] = TlsExtensionsClient([])
+    objs['tls-unknown-codes'] = [TlsInvalidTypeTwoByte(0xfffe), TlsInvalidTypeTwoByte(0x1a1a), TlsInvalidTypeOneByte(0xee)]
+    objs['ssh-banner-no-comment'] = SshProtocolMessage(
+        protocol_version=SshProtocolVersion(SshVersion.SSH2, 0), software_version=SshSoftwareVersionUnparsed('software_version'), comment=None)
+    objs['tls-version'] = TlsProtocolVersion(TlsVersion.TLS1_3_DRAFT_28)
+    return objs
 
 
 # ----------------------------------------------------------------------------------------------------------------
@@ -374,6 +412,8 @@ def build(case):
         return build_corpus_object(case)
     if case['kind'] == 'built':
         return constructed_objects()[case['name']]
+    if case['kind'] == 'library':
+        return library_objects()[case['name']]
     if case['kind'] == 'enum-member':
         return corpus.resolve(case['enum'])[case['name']]
     raise KeyError(case['kind'])
@@ -567,6 +607,8 @@ def all_cases(run):
     cases = []
     for cls, data in corpus.harvest():
         cases.append({'kind': 'corpus', 'cls': corpus.class_path(cls), 'hex': data.hex()})
+    for name in library_objects():
+        cases.append({'kind': 'library', 'name': name})
     for name in constructed_objects():
         case = {'kind': 'built', 'name': name}
         if name in ('mixed-keys', 'floats-nonfinite'):
@@ -583,19 +625,19 @@ def enum_cases(run, per_class):
     import inspect
     import pkgutil
     import cryptoparser
-    seen = []
+    seen = {}
     for info in pkgutil.walk_packages(cryptoparser.__path__, 'cryptoparser.'):
         module = importlib.import_module(info.name)
-        for _, cls in sorted(vars(module).items()):
+        for attr_name, cls in sorted(vars(module).items()):
             if inspect.isclass(cls) and issubclass(cls, enum.Enum) and cls not in seen and list(cls) and \
                     cls.__module__.startswith(('cryptoparser', 'cryptodatahub')):
-                seen.append(cls)
+                seen[cls] = info.name + ':' + attr_name          # where it can be looked up again
     cases = []
-    for cls in sorted(seen, key=lambda c: (c.__module__, c.__qualname__)):
+    for cls, path in sorted(seen.items(), key=lambda item: item[1]):
         members = list(cls)
         picked = members if per_class is None or len(members) <= per_class else run.rng.sample(members, per_class)
         for member in picked:
-            cases.append({'kind': 'enum-member', 'enum': corpus.class_path(cls), 'name': member.name})
+            cases.append({'kind': 'enum-member', 'enum': path, 'name': member.name})
     return cases
 
 
